@@ -3,6 +3,7 @@ package world
 import (
 	"fmt"
 	"net/http"
+	"os"
 	"sort"
 	"strings"
 	"time"
@@ -211,7 +212,10 @@ func hostileRequest(c *worker.Ctx, i int) reqSpec {
 
 func runC08(c *worker.Ctx) {
 	res := c.Res
-	workload := c.T.Draw(5)
+	workload := c.T.Draw(7)
+	if v := os.Getenv("FALCOSIM_C08_WORKLOAD"); v != "" { // debugging aid: force one workload family
+		fmt.Sscanf(v, "%d", &workload)
+	}
 	var vcl, wdesc string
 	var modules map[string]string
 	boundary := false
@@ -241,6 +245,14 @@ func runC08(c *worker.Ctx) {
 		var d string
 		vcl, modules, d = includeProgram(c)
 		wdesc = "include:" + d
+	case 5, 6: // W4: built-in functions × boundary arguments (input breadth riding on the world)
+		var names string
+		vcl, names = builtinProgram(c)
+		wdesc = "builtins:" + names
+		boundary = true
+		if vcl == "" {
+			vcl, wdesc = recursionProgram(c), "recursion"
+		}
 	default: // self-loop: the origin is the simulator itself
 		p := &programL{B: map[string]subBehaviour{}, Cacheable: false, TTL: 10 * time.Second}
 		if c.T.Bool(1, 2) {
@@ -353,7 +365,7 @@ func runC08(c *worker.Ctx) {
 		switch {
 		case r.PanicV != nil:
 			term = "panic"
-			res.Violate("C08/no-crash", "C08/panic:"+r.Stack+":"+clip(fmt.Sprint(r.PanicV), 70), fmt.Sprintf("request %d (%s %q) crashed the simulator: %v\nworkload %s\nprogram:\n%s", i, r.Spec.Method, clip(r.Spec.URL, 60), r.PanicV, wdesc, vcl))
+			res.Violate("C08/no-crash", "C08/panic:"+r.Stack+":"+clip(numRe.ReplaceAllString(fmt.Sprint(r.PanicV), "N"), 70), fmt.Sprintf("request %d (%s %q) crashed the simulator: %v\nworkload %s\nprogram:\n%s", i, r.Spec.Method, clip(r.Spec.URL, 60), r.PanicV, wdesc, vcl))
 		case r.Spin:
 			term = "spin"
 			res.Violate("C08/bounded", "C08/unbounded:"+r.Budget+":"+wclass+":"+r.Stack, fmt.Sprintf("request %d exceeded the %s budget (steps=%d, resolves=%d): it does not terminate\nworkload %s\nprogram:\n%s\nmodules: %v", i, r.Budget, r.Steps, w.store.Calls, wdesc, vcl, modules))
